@@ -82,6 +82,17 @@ CLAIMED['C09'] = dict(
          'set varying with the path (a symbolic dict key would only be enumerated); services are recording callables.',
     design='5/C09')
 
+CLAIMED['C17'] = dict(
+    text='Each provider callable (C-ECHO, C-STORE, C-FIND incl. worklist, C-MOVE, N-ACTION, N-EVENT-REPORT, and the C-STORE '
+         'responses of the C-GET user) is executed symbolically on a real Association (real send/set_length/encode) with '
+         'message id over 0..65535, context id, handler status over 0..65535 or EventHandlingError, result-list shapes '
+         'symbolic; every transmitted response is read back from the P-DATA bytes by an independent element reader and must '
+         'sit on the arrival context, carry Message ID Being Responded To = request id, the request SOP class (and instance), '
+         'the matching response command field and the handler status / documented failure status; one answer per request.',
+    note=TRUSTED + 'Application entity and sub-associations are recording stubs; requests are built through the message '
+         'classes; pydicom data-set codec executed as is; C-GET store context id from {3,129,255} (dict key).',
+    design='5/C17')
+
 NOT_YET = 'check not built yet in this revision (see DESIGN.md section 5 for the plan)'
 
 NOT_APPLICABLE = {}
